@@ -163,11 +163,19 @@ def trace_part(chk, n_seg, n_file):
     file_cases = []
     d0 = tlc.scratch('c14f_')
 
+    import itertools
+    combos = list(itertools.product(['FCS3.0', 'FCS3.1'], [True, False], ['header', 'text'], ['ok', 'ok', 'broken'], [True, False]))
+    rnd_c = __import__('random').Random(chk.seed)
+    rnd_c.shuffle(combos)
+    counter = [0]
+
     @settings(max_examples=n_file, deadline=None, database=None, derandomize=True,
               suppress_health_check=list(HealthCheck))
-    @given(scenario(), st.sampled_from(['FCS3.0', 'FCS3.1']), st.booleans(), st.sampled_from(['header', 'text']),
-           st.sampled_from(['ok', 'ok', 'broken']), st.integers(0, 5), st.booleans())
-    def run_file(sc, version, supp_lead, analysis_in, an_state, pad, an_lead):
+    @given(scenario(), st.integers(0, 5))
+    def run_file(sc, pad):
+        # every combination of version x supplemental/ANALYSIS rendering x location comes round every 48 files
+        version, supp_lead, analysis_in, an_state, an_lead = combos[counter[0] % len(combos)]
+        counter[0] += 1
         dl, pairs = sc
         if dl.isalnum() or dl in '$,':   # offsets / required keywords and their values are rendered with these
             dl = '|'
@@ -175,9 +183,9 @@ def trace_part(chk, n_seg, n_file):
         # split user pairs over primary / supplemental / analysis; one key present in both TEXTs
         pairs = [(('K%d' % i) + k, v) for i, (k, v) in enumerate(pairs)]
         pairs = [(k.replace(dl, 'x') if k[0] == dl else k, v) for k, v in pairs]
-        a = pairs[0::3]
-        b = pairs[1::3]
-        c = pairs[2::3]
+        c = pairs[0::3]             # ANALYSIS first: non-empty whenever there is a pair at all
+        a = pairs[1::3]
+        b = pairs[2::3]
         if a:
             b = b + [(a[0][0], 'override' + a[0][1])]
         req = fcsgen.sample_pairs(1, ['A'], [8], [256], datatype='I')
